@@ -3,7 +3,7 @@
 import ast
 
 from ..astutil import call_name, chain, walk_local_stmt
-from ..loader import AnalysisError, FuncInfo, norm, primitives
+from ..loader import demangle, AnalysisError, FuncInfo, norm, primitives
 from ..poly import Rat, Unsupported, formula
 from ..resolve import unresolved_self_loads
 
@@ -609,6 +609,105 @@ def run(repo, rep, tier):
                 rep.finding("R13.4", f, node, f"`{ast.unparse(node)}` is the total of a whole {'x-slice' if depth == 1 else 'histogram'} (it includes the "
                             f"slice's underflow/overflow/nanflow weight), not an inner-most bin: the 2-D grid/projection no longer "
                             f"contains exactly the in-range weights", stmt=f"entries at depth {depth}: {ast.unparse(node)}")
+    # ---------------- R13.10: the end-of-range corrections (`maxBin -= 1` when `high` sits on an edge) use one predicate in all accessors
+    r10 = rep.rule("R13.10", "num_bins / bin_entries / bin_edges / bin_centers decide the end-of-range correction with the same predicate", floor=4)
+    for c in prims:
+        if c.name not in BINNED:
+            continue
+        guards = {}      # adjusted variable -> {canonical guard: [accessor]}
+        ic = inlined_repo.cls(c.name)
+        for an in ACCESSORS:
+            a = inlined_repo.lookup(ic, an)          # helpers shared by the accessors (e.g. a common _bin_range) are followed
+            if not isinstance(a, FuncInfo):
+                continue
+            for st in walk_local_stmt(a.node):
+                if not isinstance(st, ast.If):
+                    continue
+                for b in st.body:
+                    if isinstance(b, ast.AugAssign) and isinstance(b.target, ast.Name) and isinstance(b.value, ast.Constant) and b.value.value == 1 \
+                            and isinstance(b.op, (ast.Add, ast.Sub)):
+                        t = demangle(ast.unparse(st.test)).replace(" ", "")
+                        guards.setdefault((demangle(b.target.id), type(b.op).__name__), {}).setdefault(t, []).append((an, a, st))
+        for (var, op), forms in guards.items():
+            n_sites = sum(len(v) for v in forms.values())
+            ok = len(forms) == 1
+            for _ in range(n_sites):
+                r10.ob(ok, f"{c.name}: correction of `{var}` guarded by {sorted(forms)}")
+            if not ok:
+                major = max(forms, key=lambda k: len(forms[k]))
+                for t, sites in forms.items():
+                    if t == major:
+                        continue
+                    for an, a, st in sites:
+                        rep.finding("R13.10", a, st, f"{c.name}.{an} decides the correction of `{var}` with `{t[:80]}` while "
+                                    f"{sorted({x[0] for x in forms[major]})} use `{major[:80]}`: for a boundary within rounding of an edge the "
+                                    f"accessors disagree on the number of bins (edges, centres and entries no longer line up)",
+                                    stmt=f"{an}: correction predicate differs")
+    # ---------------- R13.11: cells of a 2-D grid are addressed by dense positions
+    r11 = rep.rule("R13.11", "grid cells are addressed by positions of a dense index range (or by lookup in the axis' key list), never by the rank among filled bins", floor=8)
+    grid_fns = [f for f, _ in two_d]
+    for f in grid_fns:
+        binders = {}
+        for n in walk_local_stmt(f.node):
+            if isinstance(n, ast.For):
+                it = n.iter
+                tnames = [x.id for x in ast.walk(n.target) if isinstance(x, ast.Name)]
+                kind = None
+                if isinstance(it, ast.Call) and isinstance(it.func, ast.Name) and it.func.id == "range":
+                    kind = "range"
+                elif isinstance(it, ast.Call) and isinstance(it.func, ast.Name) and it.func.id == "enumerate" and it.args:
+                    inner = it.args[0]
+                    if isinstance(inner, ast.Call) and isinstance(inner.func, ast.Name) and inner.func.id == "range":
+                        kind = "range"
+                    elif isinstance(inner, ast.Attribute) and inner.attr == "values":
+                        kind = "dense list"
+                    elif isinstance(inner, ast.Name) or (isinstance(inner, ast.Attribute)):
+                        kind = "dense list" if "keys" in ast.unparse(inner) else f"enumerate({ast.unparse(inner)[:40]})"
+                    else:
+                        kind = f"enumerate({ast.unparse(inner)[:40]})"
+                    # only the position (first target) is constrained
+                    if isinstance(n.target, ast.Tuple) and n.target.elts and isinstance(n.target.elts[0], ast.Name):
+                        tnames = [n.target.elts[0].id]
+                else:
+                    kind = f"iteration over {ast.unparse(it)[:40]}"
+                for t in tnames:
+                    binders.setdefault(t, set()).add(kind)
+            elif isinstance(n, ast.Assign) and len(n.targets) == 1 and isinstance(n.targets[0], ast.Name):
+                v = n.value
+                if isinstance(v, ast.Call) and isinstance(v.func, ast.Attribute) and v.func.attr == "index":
+                    binders.setdefault(n.targets[0].id, set()).add("lookup")
+                else:
+                    used = {x.id for x in ast.walk(v) if isinstance(x, ast.Name)}
+                    binders.setdefault(n.targets[0].id, set()).add(("derived", tuple(sorted(used))))
+        params = set(f.params)
+
+        def dense(name, seen=()):
+            if name in params:
+                return True            # a position handed in by the caller (checked where it is computed)
+            kinds = binders.get(name)
+            if not kinds or name in seen:
+                return False
+            for k in kinds:
+                if k in ("range", "dense list", "lookup"):
+                    continue
+                if isinstance(k, tuple) and k[0] == "derived":
+                    if all(dense(u, seen + (name,)) or u not in binders and u not in params for u in k[1] if u in binders or u in params):
+                        continue
+                    return False
+                return False
+            return True
+        for n in walk_local_stmt(f.node):
+            if isinstance(n, ast.Subscript) and isinstance(n.ctx, ast.Store) and isinstance(n.value, ast.Name) and "grid" in n.value.id.lower():
+                idx = n.slice.elts if isinstance(n.slice, ast.Tuple) else [n.slice]
+                for ix in idx:
+                    names = [x.id for x in ast.walk(ix) if isinstance(x, ast.Name)]
+                    bad = [nm for nm in names if not dense(nm)]
+                    r11.ob(not bad, f"{f.qualname}: grid position `{ast.unparse(ix)}`")
+                    if bad:
+                        rep.finding("R13.11", f, n, f"the grid cell `{ast.unparse(n)}` is addressed by `{bad[0]}`, bound by {sorted(map(str, binders.get(bad[0], ['?'])))}: "
+                                    f"the position is the rank among the bins that happen to be filled, not the offset in the axis' dense index "
+                                    f"range, so a gap between filled bins shifts every later row/column against the axis ranges",
+                                    stmt=f"grid position {ast.unparse(ix)} from a sparse enumeration")
     # ---------------- R13.5: the edge formula is written several times (range(), isclose corrections, edges): one affine function
     r5 = rep.rule("R13.5", "every edge expression of Bin/SparselyBin is the class's own edge function of its index", floor=6)
     for cname in ("Bin", "SparselyBin"):
